@@ -375,8 +375,8 @@ func c10Table(t *testing.T) []c10Tmpl {
 
 type c10Junk struct {
 	K    string `json:"k"`              // rand | tmpl | hdr | name | rawsni | hidreq
-	Src  int    `json:"src,omitempty"`  // 0: the peer's own address (server target: the handshaking / first established client; client target: the server); n>0: third address n
-	T    int    `json:"t,omitempty"`    // tmpl: index into the table of valid messages; 100+i: the i-th most recent datagram of this case's honest traffic (0 = a held-back message)
+	Src  int    `json:"src,omitempty"`  // 0: the peer's own address (server target: the handshaking / first established client; client target: the server); n>0: third address n (5: a third address with source port 0 - replies to it fail in the socket)
+	T    int    `json:"t,omitempty"`    // tmpl: index into the table of valid messages; 100+i: the i-th most recent datagram of this case's honest traffic (0 = a held-back message); 300+m: its most recent datagram of message type m
 	F    string `json:"f,omitempty"`    // tmpl: mutated field: type | b1 | b2 | b3 | certlen | ctr ("" none)
 	V    int    `json:"v,omitempty"`    // value for F (type: -1 keeps; certlen: 0:0 1:1 2:0xffff 3:orig-1 4:orig+1; ctr: 0:zero 1:max 2:orig+1 3:random); hdr: type byte; name: index; hidreq: host; rawsni: block-size byte
 	Sid  int    `json:"sid,omitempty"`  // tmpl/hdr: bytes 4..8: 0 keep, 1 unknown id, 2+k live session id k
@@ -396,6 +396,7 @@ type c10Case struct {
 	Release   bool      `json:"release,omitempty"`   // client hs-*: the genuine reply is delivered after the junk (otherwise the junk arrives instead of it)
 	ProbeHost int       `json:"probeHost,omitempty"` // virtual host the final honest handshake aims at
 	Junk      []c10Junk `json:"junk"`
+	SettleS   int       `json:"settleS,omitempty"` // server target: virtual seconds between the junk and the oracle (the handshake timeout is 5 s: state that junk left behind expires in between)
 }
 
 // ---------------------------------------------------------------------------
@@ -595,6 +596,11 @@ func (r *c10RT) srcAddr(j c10Junk, peer *net.UDPAddr) *net.UDPAddr {
 	if j.Src <= 0 {
 		return c10EvilAddr(0)
 	}
+	if j.Src == 5 {
+		// source port 0: the datagram arrives, every reply to it fails in the socket (EINVAL)
+		a := c10EvilAddr(5)
+		return &net.UDPAddr{IP: a.IP, Port: 0}
+	}
 	return c10EvilAddr(j.Src)
 }
 
@@ -633,7 +639,20 @@ func (r *c10RT) build(j c10Junk) (data []byte, class string, structured bool) {
 	case "tmpl":
 		var name string
 		T := j.T
-		if T >= 100 {
+		if T >= 300 {
+			// the most recent honest datagram of this case with message type T-300 (a verbatim copy of, say, the
+			// established session's own ClientAck)
+			r.mu.Lock()
+			for i := len(r.live) - 1; i >= 0; i-- {
+				if d := r.live[i]; len(d) > 0 && int(d[0]) == T-300 {
+					data = append([]byte(nil), d...)
+					name = "live:" + c10TypeName(d)
+					break
+				}
+			}
+			r.mu.Unlock()
+			T -= 300
+		} else if T >= 100 {
 			r.mu.Lock()
 			if n := len(r.live); n > 0 {
 				d := r.live[n-1-(T-100)%n]
@@ -1029,6 +1048,11 @@ func (r *c10RT) runServer() {
 		return
 	}
 	c10Wait()
+	if c.SettleS > 0 {
+		time.Sleep(time.Duration(c.SettleS) * time.Second)
+		c10Wait()
+		r.label("oracle-after-the-handshake-timeout")
+	}
 	if midDone != nil {
 		r.releaseHeld()
 		select {
@@ -1330,7 +1354,7 @@ func c10GenJunk(t *rapid.T, c *c10Case, table []c10Tmpl, actors *int) c10Junk {
 		}
 	}
 	j.K = c10W[string](t, "kind", kinds...)
-	j.Src = c10W[int](t, "src", 0, 5, 1, 2, 2, 1, 3, 1, 4, 1)
+	j.Src = c10W[int](t, "src", 0, 5, 1, 2, 2, 1, 3, 1, 4, 1, 5, 1)
 	j.Seed = rapid.Uint64Range(1, 1<<40).Draw(t, "seed")
 	liveSid := func() int { return 2 + rapid.IntRange(0, 3).Draw(t, "live") }
 	// shapes that would kill the process through an OPEN finding are not generated (see triggersServer / triggersClient)
@@ -1359,8 +1383,14 @@ func c10GenJunk(t *rapid.T, c *c10Case, table []c10Tmpl, actors *int) c10Junk {
 		}
 	case "tmpl":
 		L := 2200
-		if rapid.IntRange(0, 9).Draw(t, "livetmpl") < 3 {
+		if lt := rapid.IntRange(0, 9).Draw(t, "livetmpl"); lt < 2 {
 			j.T = 100 + rapid.IntRange(0, 7).Draw(t, "recent")
+		} else if lt < 4 {
+			if serverT {
+				j.T = 300 + c10W[int](t, "livetype", 1, 2, 3, 3, 5, 3, 8, 2, 0x10, 1)
+			} else {
+				j.T = 300 + c10W[int](t, "livetype", 2, 3, 4, 3, 9, 2, 0x10, 1)
+			}
 		} else {
 			j.T = rapid.IntRange(0, len(table)-1).Draw(t, "tmpl")
 			L = len(table[j.T].Data)
@@ -1443,6 +1473,9 @@ func c10Gen(table []c10Tmpl) func(t *rapid.T) c10Case {
 				}
 			case "mid-ack-held", "mid-auth-held", "closing":
 				c.Sessions = c10W[int](t, "sessions", 0, 3, 1, 2, 2, 1)
+			}
+			if c.State != "closing" {
+				c.SettleS = c10W[int](t, "settle", 0, 5, 6, 2, 11, 1)
 			}
 		} else {
 			states := []any{"open", 4, "hs-1", 2}
